@@ -3,6 +3,8 @@
 // Line protocol: one scenario per input line, one result line per scenario.
 //   scn <id> [pert=<mode>:<seed>:<usec>] [dump=1] [wd=<seconds>] S:<stream> [S:<stream> ...] [end=1]
 //   <stream> = t<threads>,b<block_size>,o<timeout_ms>,c<check>,f<chain>,k<kind>,n<size>,d<dataseed>,s<sliceseed>,x<abort_after_calls|-1>[,z<slice scale>],g<seg>;<seg>;...
+//              optional fault keys before g: a<k> = the k-th allocation made by a WORKER thread during this stream fails,
+//              A<k> = the k-th allocation made by the main thread inside lzma_code() fails, w<usec> = the failing worker sleeps first (real scheduling)
 //   <seg>    = <len><r|f|b|F>[u<chain>]      r=LZMA_RUN f=LZMA_FULL_FLUSH b=LZMA_FULL_BARRIER F=LZMA_FINISH,
 //                                              u<chain> = lzma_filters_update(chain) after the segment
 // All streams of a scenario run on ONE lzma_stream handle (re-initialisation); a stream with x>=0 is abandoned after
@@ -26,6 +28,9 @@
 //   lzma_get_progress sampled after every call: progress_in <= total_in, >= uncompressed size of delivered Blocks;
 //   progress_out >= total_out, <= Stream Header + final sizes of the Blocks begun so far (+Index+Footer when finishing);
 //   after LZMA_STREAM_END both equal the true totals.
+// Fault injection (failing lzma_allocator on the test handle): once the armed allocation has failed, the stream must end with
+// LZMA_MEM_ERROR from lzma_code() (never hang, never LZMA_STREAM_END for FINISH, no other error code), a further lzma_code() must
+// return LZMA_PROG_ERROR, re-init / lzma_end must succeed, and after lzma_end every allocation has been freed.
 // A watchdog thread turns a hang into `DEADLOCK id=<id>` + exit 97.
 #define _GNU_SOURCE
 #include "hproto.h"
@@ -100,7 +105,7 @@ static int fail(const char *code, const char *fmt, ...)
 typedef struct { size_t len; lzma_action action; int upd; } seg_t;
 typedef struct {
 	unsigned threads; uint64_t bs; unsigned timeout; int check; int flt; int kind; size_t n;
-	uint64_t dseed, sseed; long abort_after; unsigned zscale; int nseg; seg_t seg[MAXSEG];
+	uint64_t dseed, sseed; long abort_after; unsigned zscale; long fail_worker, fail_main; unsigned fail_delay; int nseg; seg_t seg[MAXSEG];
 } stream_cfg;
 
 typedef struct { size_t uoff, usize, coff, hsize, csize, total; int fallback; int nflt; uint64_t fid[4]; } blk_t;
@@ -119,7 +124,7 @@ typedef struct {
 static int parse_stream(const char *tok, stream_cfg *c)
 {
 	memset(c, 0, sizeof *c);
-	c->abort_after = -1; c->zscale = 1;
+	c->abort_after = -1; c->zscale = 1; c->fail_worker = 0; c->fail_main = 0; c->fail_delay = 0;
 	const char *s = tok + 2;
 	while (*s) {
 		char k = *s++;
@@ -155,6 +160,9 @@ static int parse_stream(const char *tok, stream_cfg *c)
 		case 's': c->sseed = (uint64_t)v; break;
 		case 'x': c->abort_after = (long)v; break;
 		case 'z': c->zscale = (unsigned)v; break;
+		case 'a': c->fail_worker = (long)v; break;
+		case 'A': c->fail_main = (long)v; break;
+		case 'w': c->fail_delay = (unsigned)v; break;
 		default: return -1;
 		}
 		s = e;
@@ -452,6 +460,58 @@ static int validate_complete(const stream_cfg *c, const uint8_t *input, stream_r
 }
 
 // ---------------------------------------------------------------------------------------------------------------
+// failing / counting allocator of the test handle
+// ---------------------------------------------------------------------------------------------------------------
+static pthread_t g_main_thread;
+static long g_live_allocs;            // outstanding allocations (atomic)
+static long g_worker_allocs, g_main_allocs;   // counted while armed
+static long g_fail_worker_at, g_fail_main_at; // 0 = off
+static unsigned g_fail_delay;
+static int g_fault_fired;             // 1 = a worker allocation failed, 2 = a main-thread allocation failed
+static int g_in_code;                 // main thread is inside lzma_code()
+static int g_real_sched;              // real scheduling: the delay may be used
+
+static void *h_alloc(void *opaque, size_t nmemb, size_t size)
+{
+	(void)opaque;
+	if (pthread_equal(pthread_self(), g_main_thread)) {
+		long at = __atomic_load_n(&g_fail_main_at, __ATOMIC_RELAXED);
+		if (at > 0 && g_in_code && ++g_main_allocs == at) { __atomic_store_n(&g_fault_fired, 2, __ATOMIC_SEQ_CST); return NULL; }
+	} else {
+		long at = __atomic_load_n(&g_fail_worker_at, __ATOMIC_RELAXED);
+		if (at > 0 && __atomic_add_fetch(&g_worker_allocs, 1, __ATOMIC_SEQ_CST) == at) {
+			if (g_real_sched && g_fail_delay) usleep(g_fail_delay);
+			__atomic_store_n(&g_fault_fired, 1, __ATOMIC_SEQ_CST);
+			return NULL;
+		}
+	}
+	void *p = malloc(nmemb * size ? nmemb * size : 1);
+	if (p) __atomic_add_fetch(&g_live_allocs, 1, __ATOMIC_SEQ_CST);
+	return p;
+}
+static void h_free(void *opaque, void *p)
+{
+	(void)opaque;
+	if (p == NULL) return;
+	__atomic_sub_fetch(&g_live_allocs, 1, __ATOMIC_SEQ_CST);
+	free(p);
+}
+static const lzma_allocator g_allocator = { &h_alloc, &h_free, NULL };
+
+static void fault_arm(const stream_cfg *c)
+{
+	g_worker_allocs = 0; g_main_allocs = 0; g_fail_delay = c->fail_delay;
+	__atomic_store_n(&g_fault_fired, 0, __ATOMIC_SEQ_CST);
+	__atomic_store_n(&g_fail_main_at, c->fail_main, __ATOMIC_SEQ_CST);
+	__atomic_store_n(&g_fail_worker_at, c->fail_worker, __ATOMIC_SEQ_CST);
+}
+static void fault_disarm(void)
+{
+	__atomic_store_n(&g_fail_main_at, 0L, __ATOMIC_SEQ_CST);
+	__atomic_store_n(&g_fail_worker_at, 0L, __ATOMIC_SEQ_CST);
+}
+
+// ---------------------------------------------------------------------------------------------------------------
 // driving one stream
 // ---------------------------------------------------------------------------------------------------------------
 typedef struct {
@@ -514,7 +574,9 @@ static int one_call(drv_t *d, lzma_action action)
 	s->next_out = ob; s->avail_out = ao;
 	size_t ai = s->avail_in;
 	if (!d->is_ref) EVT(100, 0, ai, ao, action);
+	if (!d->is_ref) g_in_code = 1;
 	lzma_ret r = lzma_code(s, action);
+	g_in_code = 0;
 	size_t produced = ao - s->avail_out, consumed = ai - s->avail_in;
 	if (!d->is_ref) EVT(101, 0, r, consumed, produced);
 	d->res->calls++;
@@ -523,6 +585,12 @@ static int one_call(drv_t *d, lzma_action action)
 	free(ob);
 	d->in_off += consumed;
 	int rc = (int)r;
+	if (!d->is_ref && r == LZMA_MEM_ERROR && __atomic_load_n(&g_fault_fired, __ATOMIC_SEQ_CST) != 0) {
+		// the injected allocation failure has been reported: the stream is dead, the wrapper must say so from now on
+		lzma_ret r2 = lzma_code(s, action);
+		if (r2 != LZMA_PROG_ERROR) return fail("after-error-ret", "lzma_code after LZMA_MEM_ERROR returned %d, expected LZMA_PROG_ERROR", (int)r2);
+		return -3;
+	}
 	if (r != LZMA_OK && r != LZMA_STREAM_END && r != LZMA_BUF_ERROR)
 		rc = fail("ret-error", "lzma_code(action=%d) returned %d after %zu input / %zu output bytes", (int)action, (int)r, d->in_off, d->res->out.n);
 	int could_progress = ao > 0 && (ai > 0 || action != LZMA_RUN);
@@ -578,11 +646,11 @@ static int drive(drv_t *d)
 				size_t keep = s->avail_in; s->avail_in = 0;
 				int r0 = one_call(d, LZMA_RUN);
 				s->avail_in = keep;
-				if (r0 < 0) { free(ib); return r0 == -2 ? 1 : -1; }
+				if (r0 < 0) { free(ib); return r0 == -2 ? 1 : r0 == -3 ? 2 : -1; }
 			}
 			while (s->avail_in > 0) {
 				int r = one_call(d, LZMA_RUN);
-				if (r < 0) { free(ib); return r == -2 ? 1 : -1; }
+				if (r < 0) { free(ib); return r == -2 ? 1 : r == -3 ? 2 : -1; }
 			}
 			free(ib);
 			fed += sl;
@@ -594,7 +662,7 @@ static int drive(drv_t *d)
 			d->finishing = g->action == LZMA_FINISH;
 			for (;;) {
 				int r = one_call(d, g->action);
-				if (r < 0) { free(ib); return r == -2 ? 1 : -1; }
+				if (r < 0) { free(ib); return r == -2 ? 1 : r == -3 ? 2 : -1; }
 				if (r == LZMA_STREAM_END) break;
 			}
 			if (s->avail_in != 0) { free(ib); return fail("stream-end-input-left", "STREAM_END for action %d with %zu input bytes unconsumed", (int)g->action, (size_t)s->avail_in); }
@@ -631,6 +699,8 @@ static int drive(drv_t *d)
 		}
 	}
 	(void)chain;
+	if (!d->is_ref && __atomic_load_n(&g_fault_fired, __ATOMIC_SEQ_CST) != 0)
+		return fail("fault-swallowed", "an allocation failure (kind %d) was injected but the stream finished with LZMA_STREAM_END", g_fault_fired);
 	d->res->completed = 1;
 	if (sample_progress(d, 1) != 0) return -1;
 	return 0;
@@ -674,6 +744,7 @@ int main(void)
 {
 	setvbuf(stdout, NULL, _IOLBF, 0);
 	pthread_t wt;
+	g_main_thread = pthread_self();
 	__real_pthread_create(&wt, NULL, watchdog, NULL);
 	hp_line l = {0};
 	while (hp_next(&l)) {
@@ -720,9 +791,12 @@ int main(void)
 			if (rc != 0) { failed_stream = i; break; }
 		}
 		// 2. the test sequence on one handle
+		unsigned long faults = 0, memerr = 0;
 		unsigned long tot_blocks = 0, tot_fb = 0, tot_calls = 0, tot_noprog = 0, tot_fl = 0, tot_bar = 0, aborted = 0, tot_samples = 0, upd_ok = 0, upd_rej = 0, tot_in = 0, tot_out = 0, buferr = 0;
 		if (!g_failed) {
 			lzma_stream ts = LZMA_STREAM_INIT;
+			ts.allocator = &g_allocator;
+			g_real_sched = 1;
 			C08_PERT_SET(pmode, pseed, pusec);
 #ifdef C08_USE_VSCHED
 			sched_config scfg; memset(&scfg, 0, sizeof scfg);
@@ -730,6 +804,7 @@ int main(void)
 			scfg.pct_steps = sc[4]; scfg.p_timeout = (unsigned)sc[5]; scfg.p_spurious = (unsigned)sc[6]; scfg.max_steps = 20000000; scfg.jitter = 0;
 			scfg.log_path = getenv("C08_SCHED_LOG");
 			sched_begin(&scfg);
+			g_real_sched = !use_sched;
 #else
 			(void)use_sched; (void)sc;
 #endif
@@ -746,9 +821,13 @@ int main(void)
 				d.strm = &ts; d.c = &cfg[i]; d.input = input[i]; d.is_ref = 0; d.res = &res[i]; d.ref = &ref[i];
 				d.r.s = cfg[i].sseed * 0x9E3779B97F4A7C15ull + 7;
 				d.alloc = lzma_block_buffer_bound((size_t)cfg[i].bs);
+				fault_arm(&cfg[i]);
 				int rc = drive(&d);
+				fault_disarm();
 				if (rc < 0) { failed_stream = i; break; }
+				if (__atomic_load_n(&g_fault_fired, __ATOMIC_SEQ_CST) != 0) faults++;
 				if (rc == 1) aborted++;
+				else if (rc == 2) memerr++;
 				else {
 					if (res[i].out.n != ref[i].out.n) { fail("differs-from-threads1", "stream finished with %zu bytes, reference has %zu", res[i].out.n, ref[i].out.n); failed_stream = i; break; }
 					if (res[i].nbar != ref[i].nbar || res[i].nfl != ref[i].nfl) { fail("flush-count", "internal"); failed_stream = i; break; }
@@ -760,6 +839,10 @@ int main(void)
 			EVT(103, 0, 0, 0, 0);
 			lzma_end(&ts);
 			EVT(105, 0, 0, 0, 0);
+			if (!g_failed && __atomic_load_n(&g_live_allocs, __ATOMIC_SEQ_CST) != 0) {
+				fail("alloc-balance", "%ld allocations of the encoder are still live after lzma_end", __atomic_load_n(&g_live_allocs, __ATOMIC_SEQ_CST));
+				failed_stream = ns - 1;
+			}
 #ifdef C08_USE_VSCHED
 			sched_stats sst; sched_end(&sst);
 			g_steps = sst.steps; g_switches = sst.switches; g_sto = sst.timeouts; g_spur = sst.spurious; g_hash = sst.trace_hash;
@@ -772,8 +855,8 @@ int main(void)
 		__atomic_store_n(&g_deadline, 0LL, __ATOMIC_RELEASE);
 		if (g_failed) printf("FAIL id=%s stream=%d %s\n", l.tok[1], failed_stream, g_fail);
 		else {
-			printf("ok id=%s streams=%d aborted=%lu blocks=%lu fallback=%lu calls=%lu noprog=%lu buferr=%lu flush=%lu barrier=%lu samples=%lu upd_ok=%lu upd_rej=%lu in=%lu out=%lu",
-				l.tok[1], ns, aborted, tot_blocks, tot_fb, tot_calls, tot_noprog, buferr, tot_fl, tot_bar, tot_samples, upd_ok, upd_rej, tot_in, tot_out);
+			printf("ok id=%s streams=%d aborted=%lu faults=%lu memerr=%lu blocks=%lu fallback=%lu calls=%lu noprog=%lu buferr=%lu flush=%lu barrier=%lu samples=%lu upd_ok=%lu upd_rej=%lu in=%lu out=%lu",
+				l.tok[1], ns, aborted, faults, memerr, tot_blocks, tot_fb, tot_calls, tot_noprog, buferr, tot_fl, tot_bar, tot_samples, upd_ok, upd_rej, tot_in, tot_out);
 #ifdef C08_USE_VSCHED
 			printf(" steps=%llu switches=%llu sched_timeouts=%llu spurious=%llu hash=%016llx", g_steps, g_switches, g_sto, g_spur, g_hash);
 #endif
